@@ -106,6 +106,7 @@ def genOps2 : List (String × R String) := [
         let c := (List.range 4).map (Spec.ecdsaRecover (Py.ofBE dg) (Py.ofBE (rs.take 32)) (Py.ofBE ((rs.drop 32).take 32)))
         (Except.ok ((c.takeWhile Option.isSome).filterMap id) : Except PyErr (List (Nat × Nat)))
       pure (ansG (fun (P : Nat × Nat) => s!"{hex (Py.beBytes 32 P.1)} {hex (Py.beBytes 32 P.2)}") (Gen.pubkey_recover Crypto.sha256 rk m sig))),
+  ("g:is_bech32", do let a ← str; pure (ansG (fun (b : Bool) => if b then "1" else "0") (Gen.is_address_bech32 a.toList))),
   ("g:sw_init", do
       -- SegwitAddress.__init__ of the class named in the first field (script=None): numeric version and program stored
       let first ← next
